@@ -274,6 +274,35 @@ func (g *gen) sanitize(o client.Object) {
 			ing.Annotations[annPrefix+k] = v
 		}
 	}
+	if g.opt.Avoid["no_dup_paths"] {
+		taken := map[string]bool{}
+		for k, o := range g.objs[KIngress] {
+			if k == key {
+				continue
+			}
+			for _, r := range o.(*networking.Ingress).Spec.Rules {
+				if r.HTTP == nil {
+					continue
+				}
+				for _, p := range r.HTTP.Paths {
+					taken[r.Host+"#"+p.Path] = true
+				}
+			}
+		}
+		for i := range ing.Spec.Rules {
+			r := &ing.Spec.Rules[i]
+			if r.HTTP == nil {
+				continue
+			}
+			var keep []networking.HTTPIngressPath
+			for _, p := range r.HTTP.Paths {
+				if !taken[r.Host+"#"+p.Path] {
+					keep = append(keep, p)
+				}
+			}
+			r.HTTP.Paths = keep
+		}
+	}
 	if g.opt.Avoid["tcp_port_per_ingress"] {
 		if _, has := ing.Annotations[annPrefix+"tcp-service-port"]; has {
 			for i, nn := range ingNames {
@@ -566,6 +595,9 @@ func GenerateRun(seed uint64, opt GenOptions) (*World, []Op) {
 	n := g.opt.KeysPerRun
 	if n == 0 {
 		n = 7
+	}
+	if g.opt.Avoid["no_external_auth"] {
+		opt.ExcludeIngressKeys = append(append([]string{}, opt.ExcludeIngressKeys...), "auth-url", "oauth", "auth-external-placement")
 	}
 	if g.opt.Avoid["no_header_match"] {
 		opt.ExcludeIngressKeys = append(append([]string{}, opt.ExcludeIngressKeys...), "http-header-match", "http-header-match-regex")
